@@ -17,6 +17,7 @@ This covers `rows joined by "\n" (+ optional final "\n")` with blank lines anywh
 import Vibrato.Proofs.LexCsvRows
 import Vibrato.Proofs.LexCsvJoin
 import Vibrato.Proofs.CsvQuote
+import Vibrato.Proofs.CsvRowTotal
 
 namespace Vibrato.C11
 
@@ -393,46 +394,161 @@ theorem quote_csv_cell_eq (x : List UInt8) : quoteCsvCell x = .ok (quoteCell x) 
 
 example : quoteCsvCell [97, 34, 44] = .ok [34, 97, 34, 34, 44, 34] := quote_csv_cell_eq _
 
-/-- **unquote_quote.**  `parse_csv_row(quote_csv_cell(x)) = [x]` for every valid UTF-8 `x`
-shorter than 4096 bytes that does not start with a BOM. -/
+/-- **unquote_quote (pinned tree, 4096 byte buffer).**  `parse_csv_row(quote_csv_cell(x)) =
+[x]` for every valid UTF-8 `x` shorter than 4096 bytes that does not start with a BOM. -/
 theorem unquote_quote (x : List UInt8) (hu : validUtf8 x = true) (hlen : x.length < 4096)
     (hbom : ¬ (bom <+: quoteCell x)) :
-    parseCsvRowBytes (quoteCell x) = .ok [x] :=
+    parseCsvRowBytes false (quoteCell x) = .ok [x] :=
   Vibrato.LexCsv.unquote_quote x hu hlen hbom
 
-example : parseCsvRowBytes (quoteCell [0xE6, 0x9D, 0xB1, 44, 34, 10]) =
+example : parseCsvRowBytes false (quoteCell [0xE6, 0x9D, 0xB1, 44, 34, 10]) =
     .ok [[0xE6, 0x9D, 0xB1, 44, 34, 10]] :=
   unquote_quote _ (by decide) (by decide) (by decide)
 
-/-- **parse_csv_row on a written row.**  A row `c_1,…,c_k,last` of well-formed cells (values
-valid UTF-8 and shorter than 4096 bytes), whose last cell is not empty in the file and which
-does not start with a BOM, is parsed into the unquoted values.  With
+/-- **unquote_quote (repaired tree, finding F18: buffer sized by the row).**  For every valid
+UTF-8 `x` of any length that does not start with a BOM. -/
+theorem unquote_quote_fixed (x : List UInt8) (hu : validUtf8 x = true)
+    (hbom : ¬ (bom <+: quoteCell x)) :
+    parseCsvRowBytes true (quoteCell x) = .ok [x] :=
+  Vibrato.LexCsv.unquote_quote_fixed x hu hbom
+
+example : parseCsvRowBytes true (quoteCell [0xE6, 0x9D, 0xB1, 44, 34, 10]) =
+    .ok [[0xE6, 0x9D, 0xB1, 44, 34, 10]] :=
+  unquote_quote_fixed _ (by decide) (by decide)
+
+/-- **parse_csv_row on a written row (pinned tree).**  A row `c_1,…,c_k,last` of well-formed
+cells (values valid UTF-8 and shorter than 4096 bytes), whose last cell is not empty in the
+file and which does not start with a BOM, is parsed into the unquoted values.  With
 `cellOfValue_render : (cellOfValue x).render = quoteCell x` this covers every row written as
 `quote_csv_cell` cells joined by commas. -/
 theorem parse_csv_row_cells (cs : List Cell) (last : Cell)
     (hnb : ¬ (bom <+: featInitBytes cs ++ last.render))
     (hcs : ∀ c ∈ cs, cellOk c ∧ validUtf8 c.value = true)
     (hlast : cellOk last ∧ validUtf8 last.value = true) (hne : last.render ≠ []) :
-    parseCsvRowBytes (featInitBytes cs ++ last.render) =
+    parseCsvRowBytes false (featInitBytes cs ++ last.render) =
       .ok (cs.map Cell.value ++ [last.value]) :=
   Vibrato.LexCsv.parse_csv_row_cells cs last hnb hcs hlast hne
 
 example :
-    parseCsvRowBytes (featInitBytes [cellOfValue [97], cellOfValue []] ++
+    parseCsvRowBytes false (featInitBytes [cellOfValue [97], cellOfValue []] ++
       (cellOfValue [49, 44, 50]).render) = .ok [[97], [], [49, 44, 50]] :=
   parse_csv_row_cells _ _ (by decide) (by decide) (by decide) (by decide)
 
-/-- Edge cases of `parse_csv_row` (kernel-evaluated on the model; the first two also
-confirmed against the real crate):
+/-- **parse_csv_row on a written row (repaired tree, F18).**  The same without any length
+restriction on the cells. -/
+theorem parse_csv_row_cells_fixed (cs : List Cell) (last : Cell)
+    (hnb : ¬ (bom <+: featInitBytes cs ++ last.render))
+    (hcs : ∀ c ∈ cs, c.wf = true ∧ validUtf8 c.value = true)
+    (hlast : last.wf = true ∧ validUtf8 last.value = true) (hne : last.render ≠ []) :
+    parseCsvRowBytes true (featInitBytes cs ++ last.render) =
+      .ok (cs.map Cell.value ++ [last.value]) :=
+  Vibrato.LexCsv.parse_csv_row_cells_fixed cs last hnb hcs hlast hne
+
+example :
+    parseCsvRowBytes true (featInitBytes [cellOfValue [97], cellOfValue []] ++
+      (cellOfValue [49, 44, 50]).render) = .ok [[97], [], [49, 44, 50]] :=
+  parse_csv_row_cells_fixed _ _ (by decide) (by decide) (by decide) (by decide)
+
+/-- Edge cases of `parse_csv_row` (kernel-evaluated on the model, both buffer variants; the
+first two also confirmed against the real crate):
 * a row that ends with a comma yields TWO trailing empty cells (`"a,"` → `["a","",""]`):
   the flush `Field{record_end:true}` and the final `End` both push an empty string;
 * the empty row yields `[""]`;
 * a leading BOM is dropped by csv-core, so `parse_csv_row(quote_csv_cell(x)) ≠ [x]` when `x`
   starts with U+FEFF. -/
 theorem witness_parse_csv_row_edges :
-    parseCsvRowBytes [97, 44] = .ok [[97], [], []] ∧
-    parseCsvRowBytes [] = .ok [[]] ∧
-    parseCsvRowBytes (quoteCell [0xEF, 0xBB, 0xBF, 97]) = .ok [[97]] := by
+    (∀ fixed, parseCsvRowBytes fixed [97, 44] = .ok [[97], [], []]) ∧
+    (∀ fixed, parseCsvRowBytes fixed [] = .ok [[]]) ∧
+    (∀ fixed, parseCsvRowBytes fixed (quoteCell [0xEF, 0xBB, 0xBF, 97]) = .ok [[97]]) := by
   decide
+
+/-! ## Finding F18: `parse_csv_row` and cells of 4096 bytes or more -/
+
+/-- **parse_csv_row_total** (repaired tree).  With the output buffer sized by the row
+(`let mut output = vec![0; row.len()];`) `parse_csv_row` has no reachable panic site for any
+`&str`: `OutputFull` cannot occur because every output byte consumes an input byte
+(`readField_ne_outputFull`), so `unreachable!()` is dead; and every field of a valid UTF-8 row
+is valid UTF-8 (`readField_utf8`: the reader only drops `,` `"` `\r` `\n` and a leading BOM,
+and ends fields only after such a byte or at the end of the row), so `from_utf8(..).unwrap()`
+cannot fail. -/
+theorem parse_csv_row_total (row : List UInt8) (hv : validUtf8 row = true) :
+    parseCsvRowBytes true row ≠ .panic :=
+  parseCsvRowBytes_fixed_ne_panic row hv
+
+example : parseCsvRowBytes true [0xE6, 0x9D, 0xB1, 34, 44, 13, 10, 34, 34] ≠ .panic :=
+  parse_csv_row_total _ (by decide)
+
+/-- `parse_csv_row` has no `Err` path either: on the repaired tree every `&str` yields a list
+of cells. -/
+theorem parse_csv_row_ok (row : List UInt8) (hv : validUtf8 row = true) :
+    ∃ cells, parseCsvRowBytes true row = .ok cells := by
+  have h1 := parse_csv_row_total row hv
+  have h2 : parseCsvRowBytes true row ≠ .err := by
+    unfold parseCsvRowBytes
+    cases hr : rowLoop (rowCap true row) (parseFuel row) Reader.new row [] with
+    | none => simp
+    | some r =>
+      intro h
+      exact rowLoop_ne_err _ _ _ _ _ (by rw [hr]; simpa using congrArg some h)
+  cases h : parseCsvRowBytes true row with
+  | ok cells => exact ⟨cells, rfl⟩
+  | err => exact absurd h h2
+  | panic => exact absurd h h1
+
+example : ∃ cells, parseCsvRowBytes true [97, 44, 34, 98] = .ok cells :=
+  parse_csv_row_ok _ (by decide)
+
+/-- **Pinned tree (F18).**  A row whose first cell is a plain cell of 4096 bytes or more,
+followed by at least one more byte, makes `parse_csv_row` hit `_ => unreachable!()`
+(`OutputFull` from the fixed `[0; 4096]` buffer): panic. -/
+theorem parse_csv_row_pinned_panic (v rest : List UInt8) (hwf : (Cell.plain v).wf = true)
+    (hlen : 4096 ≤ v.length) (b : UInt8) (hnb : ¬ (bom <+: v ++ b :: rest)) :
+    parseCsvRowBytes false (v ++ b :: rest) = .panic :=
+  parseCsvRowBytes_pinned_panic v rest hwf hlen b hnb
+
+/-- `n ≥ 4096` times `a`, then `,b`: panic on the pinned tree, two cells on the repaired
+tree. -/
+theorem row_long_cell (n : Nat) (hn : 4096 ≤ n) :
+    parseCsvRowBytes false (List.replicate n 97 ++ [44, 98]) = .panic ∧
+    parseCsvRowBytes true (List.replicate n 97 ++ [44, 98]) =
+      .ok [List.replicate n 97, [98]] := by
+  obtain ⟨m, rfl⟩ : ∃ m, n = m + 1 := ⟨n - 1, by omega⟩
+  have hwf : (Cell.plain (List.replicate (m + 1) 97)).wf = true := by
+    simp only [Cell.wf, List.all_eq_true, List.mem_replicate]
+    intro x hx
+    rw [hx.2]; decide
+  have hb : ∀ rest, ¬ (bom <+: List.replicate (m + 1) 97 ++ rest) := by
+    intro rest h
+    rw [List.replicate_succ, List.cons_append] at h
+    have := List.IsPrefix.getElem h (i := 0) (by simp [bom])
+    simp [bom] at this
+  constructor
+  · exact parse_csv_row_pinned_panic _ _ hwf (by simpa using hn) 44 (hb _)
+  · have h := parse_csv_row_cells_fixed [.plain (List.replicate (m + 1) 97)] (.plain [98])
+      (by simpa [featInitBytes, Cell.render] using hb [44, 98])
+      (by
+        intro c hc
+        simp only [List.mem_cons, List.mem_nil_iff, or_false] at hc
+        subst hc
+        refine ⟨hwf, ?_⟩
+        apply validUtf8_ascii
+        intro b hb'
+        simp only [Cell.value, List.mem_replicate] at hb'
+        rw [hb'.2]; decide)
+      (by decide) (by decide)
+    simpa [featInitBytes, Cell.render, Cell.value] using h
+
+/-- Witness: 4096 times `a`, then `,b`. -/
+theorem witness_row_4096 :
+    parseCsvRowBytes false (List.replicate 4096 97 ++ [44, 98]) = .panic ∧
+    parseCsvRowBytes true (List.replicate 4096 97 ++ [44, 98]) =
+      .ok [List.replicate 4096 97, [98]] :=
+  row_long_cell 4096 (by decide)
+
+#guard parseCsvRowBytes false (List.replicate 4096 97 ++ [44, 98]) == .panic
+#guard parseCsvRowBytes true (List.replicate 4096 97 ++ [44, 98]) ==
+  .ok [List.replicate 4096 97, [98]]
+#guard parseCsvRowBytes false (List.replicate 4095 97 ++ [44, 98]) ==
+  .ok [List.replicate 4095 97, [98]]
 
 end Vibrato.C11
